@@ -691,3 +691,142 @@ Proof.
     rewrite <- (forallb_auth_maxfee _ _ F). reflexivity.
   - subst e'. reflexivity.
 Qed.
+
+Lemma same_but_maxfee_map (g : tx -> N) l : Forall2 same_but_maxfee l (map (fun t => with_maxfee (g t) t) l).
+Proof. induction l as [|t l IH]; cbn [map]; constructor; [exists (g t); reflexivity | exact IH]. Qed.
+
+(* rewriting every max_fee (for instance to 0) changes nothing *)
+Lemma execute_block_remax r mk p b (g : tx -> N) :
+  execute_block r mk p (with_txs b (map (fun t => with_maxfee (g t) t) (b_txs b))) = execute_block r mk p b.
+Proof. apply execute_block_maxfee, same_but_maxfee_map. Qed.
+
+(* the charged fee of an included transaction, and the whole outcome of its task, for any max_fee *)
+Lemma run_tx_fee_any_maxfee r fm parent ts st t sk u st' res :
+  run_tx r fm parent ts st t sk u = (st', inl res) ->
+  fee fm u = Some (res_fee res) /\ res_fee res = price_x_units (unit_prices fm) u
+  /\ forall m, run_tx r fm parent ts st (with_maxfee m t) sk u = (st', inl res).
+Proof.
+  intros H. destruct (run_tx_fee _ _ _ _ _ _ _ _ _ _ H) as (F & _ & E & _).
+  split; [exact F|]. split; [exact E|]. intros m. rewrite run_tx_maxfee. exact H.
+Qed.
+
+(* the gate: inclusion happens only through pre_execute, and Execute charges the fee it computed *)
+Lemma run_tx_gate r fm parent ts st t sk u st' res :
+  run_tx r fm parent ts st t sk u = (st', inl res) ->
+  pre_execute r fm t u (tx_view parent st sk) ts = (0, res_fee res).
+Proof.
+  intros H. destruct (run_tx_included _ _ _ _ _ _ _ _ _ _ H) as (f & s' & P & X & _).
+  destruct (execute_tx_fee_units _ _ _ _ _ _ X) as [-> _]. exact P.
+Qed.
+
+(* ------------------------------------------------------------------ 10. actions that do not write the sponsor key *)
+
+(* the operation may write key k *)
+Definition op_writes (k : key) (o : sop) : Prop :=
+  match o with
+  | OGet _ | OFail => False
+  | OPut k' _ | ODel k' => k' = k
+  | OTransfer from to _ _ => from = k \/ to = k
+  end.
+
+Definition no_action_writes (k : key) (acts : list action) : Prop :=
+  Forall (fun a => Forall (fun o => ~ op_writes k o) (a_ops a)) acts.
+
+Lemma insert_vis_other s k v k' : k <> k' -> vis (fst (insert s k v)) k' = vis s k'.
+Proof.
+  intros Hne. destruct (insert s k v) as [s' [e|]] eqn:R; cbn [fst].
+  - rewrite (insert_fail _ _ _ _ _ R). reflexivity.
+  - apply (proj2 (insert_vis _ _ _ _ R)), Hne.
+Qed.
+
+Lemma remove_vis_other s k k' : k <> k' -> vis (fst (remove s k)) k' = vis s k'.
+Proof.
+  intros Hne. destruct (remove s k) as [s' [e|]] eqn:R; cbn [fst].
+  - rewrite (proj1 (remove_fail _ _ _ _ R)). reflexivity.
+  - apply (proj2 (remove_vis _ _ _ R)), Hne.
+Qed.
+
+Lemma sub_balance_vis_other s k a k' : k <> k' -> vis (fst (sub_balance s k a)) k' = vis s k'.
+Proof.
+  intros Hne. unfold sub_balance. destruct (get s k) as [v|e]; [|reflexivity].
+  destruct (parse_u64 v) as [bal|]; [|reflexivity]. destruct (bal <? a); [reflexivity|].
+  destruct (bal - a =? 0).
+  - pose proof (remove_vis_other s k k' Hne) as H. destruct (remove s k) as [s' [e|]]; exact H.
+  - pose proof (insert_vis_other s k (be64 (bal - a)) k' Hne) as H.
+    destruct (insert s k (be64 (bal - a))) as [s' [e|]]; exact H.
+Qed.
+
+Lemma add_balance_vis_other s k a k' : k <> k' -> vis (fst (add_balance s k a)) k' = vis s k'.
+Proof.
+  intros Hne. unfold add_balance.
+  destruct (match get s k with
+            | inl v => match parse_u64 v with Some b => inl b | None => inr AEOther end
+            | inr ENotFound => inl 0
+            | inr e => inr (aerr_of e)
+            end) as [bal|e]; [|reflexivity].
+  destruct (add_chk bal a) as [nbal|]; [|reflexivity].
+  pose proof (insert_vis_other s k (be64 nbal) k' Hne) as H.
+  destruct (insert s k (be64 nbal)) as [s' [e|]]; exact H.
+Qed.
+
+Lemma run_ops_vis_unwritten ops : forall s out k, Forall (fun o => ~ op_writes k o) ops ->
+  vis (fst (run_ops s ops out)) k = vis s k.
+Proof.
+  induction ops as [|o ops IH]; intros s out k F; cbn [run_ops]; [reflexivity|].
+  inversion F as [|? ? Ho F']; subst.
+  destruct o as [k0|k0 v|k0| |from to value memo_ok]; cbn [op_writes] in Ho.
+  - destruct (get s k0) as [v|[| |]]; try reflexivity; apply IH, F'.
+  - pose proof (insert_vis_other s k0 v k Ho) as H. destruct (insert s k0 v) as [s' [e|]]; cbn [fst] in *.
+    + exact H.
+    + rewrite (IH _ _ _ F'). exact H.
+  - pose proof (remove_vis_other s k0 k Ho) as H. destruct (remove s k0) as [s' [e|]]; cbn [fst] in *.
+    + exact H.
+    + rewrite (IH _ _ _ F'). exact H.
+  - reflexivity.
+  - destruct (value =? 0); [reflexivity|]. destruct (negb memo_ok); [reflexivity|].
+    assert (H1 : from <> k) by tauto. assert (H2 : to <> k) by tauto.
+    pose proof (sub_balance_vis_other s from value k H1) as G1.
+    destruct (sub_balance s from value) as [s1 [sb|e]]; cbn [fst] in *; [|exact G1].
+    pose proof (add_balance_vis_other s1 to value k H2) as G2.
+    destruct (add_balance s1 to value) as [s2 [rb|e]]; cbn [fst] in *.
+    + rewrite (IH _ _ _ F'), G2. exact G1.
+    + rewrite G2. exact G1.
+Qed.
+
+Lemma run_all_vis_unwritten acts : forall s s' o k, no_action_writes k acts ->
+  run_all s acts = Some (s', o) -> vis s' k = vis s k.
+Proof.
+  induction acts as [|a acts IH]; intros s s' o k F H; cbn [run_all] in H.
+  - inversion H. reflexivity.
+  - inversion F as [|? ? Fa F']; subst.
+    pose proof (run_ops_vis_unwritten (a_ops a) s [] k Fa) as G.
+    destruct (run_ops s (a_ops a) []) as [s1 [out|e]]; [|discriminate]. cbn [fst] in G.
+    destruct (run_all s1 acts) as [[s2 o2]|] eqn:E; [|discriminate]. inversion H; subst.
+    rewrite (IH _ _ _ _ F' E). exact G.
+Qed.
+
+(* if no action writes the sponsor's balance key, the sponsor pays exactly the fee: its visible
+   balance at the end of Execute is the one before minus f, whether the actions succeeded or not *)
+Lemma execute_tx_sponsor_pays_exactly t u f s s' r : view_ok s -> execute_tx t u f s = Some (s', r) ->
+  no_action_writes (t_sponsor_key t) (t_actions t) ->
+  exists v, get s (t_sponsor_key t) = inl v /\ length v = 8%nat /\ f <= be_dec v
+    /\ vis s' (t_sponsor_key t) = paid_value t (be_dec v) f
+    /\ (be_dec v <= MaxU64 -> get_balance s' (t_sponsor_key t) = Some (be_dec v - f)).
+Proof.
+  intros Hok H Hnw.
+  destruct (execute_tx_fee_charged _ _ _ _ _ _ H) as (v & s1 & G & Hl & Hle & Hd & V1 & _ & Hb & Hr & _).
+  assert (Hv : vis s' (t_sponsor_key t) = vis s1 (t_sponsor_key t)).
+  { destruct (res_success r) eqn:Hs.
+    - destruct (execute_tx_success _ _ _ _ _ _ H Hs) as (s1' & Hd' & E & _).
+      rewrite Hd in Hd'. inversion Hd'; subst s1'. eapply run_all_vis_unwritten; eassumption.
+    - destruct (execute_tx_failure _ _ _ _ _ _ Hok H Hs) as (s1' & Hd' & Hv & _).
+      rewrite Hd in Hd'. inversion Hd'; subst s1'. apply Hv. }
+  exists v. split; [exact G|]. split; [exact Hl|]. split; [exact Hle|]. split; [rewrite Hv; exact V1|].
+  intros Hm. specialize (Hb Hm).
+  destruct (get_inl _ _ _ G) as [Hrd _].
+  destruct (execute_tx_view_ok _ _ _ _ _ _ Hok H) as (_ & _ & _ & Hsc).
+  destruct (deduct_spec _ _ _ _ Hd) as (_ & _ & _ & _ & _ & _ & Hr1).
+  destruct (reach_env _ _ Hr1) as (_ & _ & Hsc1).
+  rewrite get_balance_vis in Hb by (rewrite Hsc1; exact Hrd).
+  rewrite get_balance_vis by (rewrite Hsc; exact Hrd). rewrite Hv. exact Hb.
+Qed.
